@@ -1,0 +1,181 @@
+//go:build verif
+
+package datalog
+
+// Contracts for the deductive verifier in /verif. This file contains comments
+// only: with the build tag off it is not compiled, with it on it adds no code.
+// Syntax: /verif/DESIGN.md, Appendix B. Names bind positionally to the real
+// receiver, parameters and results.
+
+// ---------------------------------------------------------------------------
+// symbol table
+
+//@ func (t *SymbolTable) Str(sym String) (result string)
+//@ serves C06 C07 C10
+//@ requires t != nil
+//@ modifies nothing
+//@ ensures default: sym < 28 ==> result == DEFAULT_SYMBOLS[sym]
+//@ ensures table: 1024 <= sym && sym - 1024 < len(*t) ==> result == (*t)[sym-1024]
+
+//@ func (t *SymbolTable) Var(v Variable) (result string)
+//@ serves C07 C10
+//@ requires t != nil
+//@ modifies nothing
+//@ ensures default: v < 28 ==> result == DEFAULT_SYMBOLS[v]
+//@ ensures table: 1024 <= v && v - 1024 < len(*t) ==> result == (*t)[v-1024]
+
+//@ func (t *SymbolTable) Insert(s string) (result String)
+//@ serves C06 C07 C08 C10
+//@ requires t != nil
+//@ modifies *t, spare(*t)
+//@ loop 0 invariant forall j int :: 0 <= j && j < #i ==> DEFAULT_SYMBOLS[j] != s
+//@ loop 1 invariant forall j int :: 0 <= j && j < #i ==> old((*t)[j]) != s
+//@ ensures resolves: symValid(t, result) && symStr(t, result) == s
+//@ ensures default_hit: (exists j int :: 0 <= j && j < 28 && DEFAULT_SYMBOLS[j] == s) ==> result < 28 && *t == old(*t)
+//@ ensures prefix_kept: len(*t) >= old(len(*t)) && (forall j int :: 0 <= j && j < old(len(*t)) ==> (*t)[j] == old((*t)[j]))
+//@ ensures grows_by_at_most_one: len(*t) <= old(len(*t)) + 1
+//@ ensures fresh_symbol: (forall j int :: 0 <= j && j < 28 ==> DEFAULT_SYMBOLS[j] != s) && (forall j int :: 0 <= j && j < old(len(*t)) ==> old((*t)[j]) != s) ==> result == 1024 + old(len(*t)) && len(*t) == old(len(*t)) + 1
+//@ ensures known_symbol: (exists j int :: 0 <= j && j < old(len(*t)) && old((*t)[j]) == s) ==> *t == old(*t)
+
+//@ func (t *SymbolTable) Len() (result int)
+//@ serves C07 C08
+//@ requires t != nil
+//@ modifies nothing
+//@ ensures result == len(*t)
+
+//@ func (t *SymbolTable) Clone() (result *SymbolTable)
+//@ serves C07 C08 C19
+//@ requires t != nil
+//@ modifies nothing
+//@ ensures copy: result != nil && fresh(result) && len(*result) == len(*t) && (forall j int :: 0 <= j && j < len(*t) ==> (*result)[j] == (*t)[j])
+//@ ensures owns_capacity: fresh(arr(*result)) || cap(*result) == len(*result)
+
+// ---------------------------------------------------------------------------
+// evaluation stack
+
+//@ func (s *stack) Push(v Term) (err error)
+//@ serves C06 C10
+//@ requires s != nil
+//@ modifies *s, spare(*s)
+//@ ensures full: old(len(*s)) >= 1000 ==> err != nil && *s == old(*s)
+//@ ensures pushed: old(len(*s)) < 1000 ==> err == nil && len(*s) == old(len(*s)) + 1 && (*s)[len(*s)-1] == v && (forall j int :: 0 <= j && j < old(len(*s)) ==> (*s)[j] == old((*s)[j]))
+
+//@ func (s *stack) Pop() (v Term, err error)
+//@ serves C06 C10
+//@ requires s != nil
+//@ modifies *s
+//@ ensures empty: old(len(*s)) == 0 ==> err != nil && v == nil && *s == old(*s)
+//@ ensures popped: old(len(*s)) > 0 ==> err == nil && v == old((*s)[len(*s)-1]) && len(*s) == old(len(*s)) - 1 && arr(*s) == old(arr(*s)) && off(*s) == old(off(*s))
+
+// ---------------------------------------------------------------------------
+// operators (C06: one ensures row per line of the operator table)
+
+//@ func (Negate) Eval(value Term, _ *SymbolTable) (res Term, err error)
+//@ serves C06 C10
+//@ requires value != nil
+//@ modifies nothing
+//@ ensures not: value is Bool ==> err == nil && res == Bool(!value.(Bool))
+//@ ensures illtyped: !(value is Bool) ==> err != nil && res == nil
+
+//@ func (Parens) Eval(value Term, _ *SymbolTable) (res Term, err error)
+//@ serves C06 C10
+//@ modifies nothing
+//@ ensures identity: err == nil && res == value
+
+//@ func (Length) Eval(value Term, symbols *SymbolTable) (res Term, err error)
+//@ serves C06 C10
+//@ requires value != nil && symbols != nil
+//@ modifies nothing
+//@ ensures str: value is String && symValid(symbols, value.(String)) ==> err == nil && res == Integer(len(symStr(symbols, value.(String))))
+//@ ensures bytes: value is Bytes ==> err == nil && res == Integer(len(value.(Bytes)))
+//@ ensures set: value is Set ==> err == nil && res == Integer(len(value.(Set)))
+//@ ensures illtyped: !(value is String) && !(value is Bytes) && !(value is Set) ==> err != nil && res == nil
+
+//@ func (LessThan) Eval(left Term, right Term, _ *SymbolTable) (res Term, err error)
+//@ serves C06 C10
+//@ requires left != nil && right != nil
+//@ modifies nothing
+//@ ensures ints: left is Integer && right is Integer ==> err == nil && res == Bool(left.(Integer) < right.(Integer))
+//@ ensures dates: left is Date && right is Date ==> err == nil && res == Bool(left.(Date) < right.(Date))
+//@ ensures illtyped: !(left is Integer && right is Integer) && !(left is Date && right is Date) ==> err != nil && res == nil
+
+//@ func (LessOrEqual) Eval(left Term, right Term, _ *SymbolTable) (res Term, err error)
+//@ serves C06 C10
+//@ requires left != nil && right != nil
+//@ modifies nothing
+//@ ensures ints: left is Integer && right is Integer ==> err == nil && res == Bool(left.(Integer) <= right.(Integer))
+//@ ensures dates: left is Date && right is Date ==> err == nil && res == Bool(left.(Date) <= right.(Date))
+//@ ensures illtyped: !(left is Integer && right is Integer) && !(left is Date && right is Date) ==> err != nil && res == nil
+
+//@ func (GreaterThan) Eval(left Term, right Term, _ *SymbolTable) (res Term, err error)
+//@ serves C06 C10
+//@ requires left != nil && right != nil
+//@ modifies nothing
+//@ ensures ints: left is Integer && right is Integer ==> err == nil && res == Bool(left.(Integer) > right.(Integer))
+//@ ensures dates: left is Date && right is Date ==> err == nil && res == Bool(left.(Date) > right.(Date))
+//@ ensures illtyped: !(left is Integer && right is Integer) && !(left is Date && right is Date) ==> err != nil && res == nil
+
+//@ func (GreaterOrEqual) Eval(left Term, right Term, _ *SymbolTable) (res Term, err error)
+//@ serves C06 C10
+//@ requires left != nil && right != nil
+//@ modifies nothing
+//@ ensures ints: left is Integer && right is Integer ==> err == nil && res == Bool(left.(Integer) >= right.(Integer))
+//@ ensures dates: left is Date && right is Date ==> err == nil && res == Bool(left.(Date) >= right.(Date))
+//@ ensures illtyped: !(left is Integer && right is Integer) && !(left is Date && right is Date) ==> err != nil && res == nil
+
+//@ func (And) Eval(left Term, right Term, _ *SymbolTable) (res Term, err error)
+//@ serves C06 C10
+//@ modifies nothing
+//@ ensures strict: left is Bool && right is Bool ==> err == nil && res == Bool(left.(Bool) && right.(Bool))
+//@ ensures illtyped: !(left is Bool && right is Bool) ==> err != nil && res == nil
+
+//@ func (Or) Eval(left Term, right Term, _ *SymbolTable) (res Term, err error)
+//@ serves C06 C10
+//@ modifies nothing
+//@ ensures strict: left is Bool && right is Bool ==> err == nil && res == Bool(left.(Bool) || right.(Bool))
+//@ ensures illtyped: !(left is Bool && right is Bool) ==> err != nil && res == nil
+
+//@ func (Add) Eval(left Term, right Term, symbols *SymbolTable) (res Term, err error)
+//@ serves C06 C10
+//@ requires symbols != nil
+//@ modifies *symbols, spare(*symbols)
+//@ ensures exact: left is Integer && right is Integer && in64(left.(Integer) + right.(Integer)) ==> err == nil && res == Integer(left.(Integer) + right.(Integer))
+//@ ensures no_wrap: left is Integer && right is Integer && !in64(left.(Integer) + right.(Integer)) ==> err != nil && res == nil
+//@ ensures concat: left is String && right is String && old(symValid(symbols, left.(String))) && old(symValid(symbols, right.(String))) ==> err == nil && res is String && symValid(symbols, res.(String)) && symStr(symbols, res.(String)) == old(symStr(symbols, left.(String))) + old(symStr(symbols, right.(String)))
+//@ ensures illtyped: !(left is Integer && right is Integer) && !(left is String && right is String) ==> err != nil && res == nil
+
+//@ func (Sub) Eval(left Term, right Term, _ *SymbolTable) (res Term, err error)
+//@ serves C06 C10
+//@ modifies nothing
+//@ ensures exact: left is Integer && right is Integer && in64(left.(Integer) - right.(Integer)) ==> err == nil && res == Integer(left.(Integer) - right.(Integer))
+//@ ensures no_wrap: left is Integer && right is Integer && !in64(left.(Integer) - right.(Integer)) ==> err != nil && res == nil
+//@ ensures illtyped: !(left is Integer && right is Integer) ==> err != nil && res == nil
+
+//@ func (Mul) Eval(left Term, right Term, _ *SymbolTable) (res Term, err error)
+//@ serves C06 C10
+//@ modifies nothing
+//@ ensures exact: left is Integer && right is Integer && in64(left.(Integer) * right.(Integer)) ==> err == nil && res == Integer(left.(Integer) * right.(Integer))
+//@ ensures no_wrap: left is Integer && right is Integer && !in64(left.(Integer) * right.(Integer)) ==> err != nil && res == nil
+//@ ensures illtyped: !(left is Integer && right is Integer) ==> err != nil && res == nil
+
+//@ func (Div) Eval(left Term, right Term, _ *SymbolTable) (res Term, err error)
+//@ serves C06 C10
+//@ modifies nothing
+//@ ensures div_by_zero: left is Integer && right is Integer && right.(Integer) == 0 ==> err == ErrExprDivByZero && res == nil
+//@ ensures exact: left is Integer && right is Integer && right.(Integer) != 0 && in64(left.(Integer) / right.(Integer)) ==> err == nil && res == Integer(left.(Integer) / right.(Integer))
+//@ ensures no_wrap: left is Integer && right is Integer && right.(Integer) != 0 && !in64(left.(Integer) / right.(Integer)) ==> err != nil && res == nil
+//@ ensures illtyped: !(left is Integer && right is Integer) ==> err != nil && res == nil
+
+//@ func (Prefix) Eval(left Term, right Term, symbols *SymbolTable) (res Term, err error)
+//@ serves C06 C10
+//@ requires symbols != nil
+//@ modifies nothing
+//@ ensures strings: left is String && right is String && symValid(symbols, left.(String)) && symValid(symbols, right.(String)) ==> err == nil && res == Bool(strHasPrefix(symStr(symbols, left.(String)), symStr(symbols, right.(String))))
+//@ ensures illtyped: !(left is String && right is String) ==> err != nil && res == nil
+
+//@ func (Suffix) Eval(left Term, right Term, symbols *SymbolTable) (res Term, err error)
+//@ serves C06 C10
+//@ requires symbols != nil
+//@ modifies nothing
+//@ ensures strings: left is String && right is String && symValid(symbols, left.(String)) && symValid(symbols, right.(String)) ==> err == nil && res == Bool(strHasSuffix(symStr(symbols, left.(String)), symStr(symbols, right.(String))))
+//@ ensures illtyped: !(left is String && right is String) ==> err != nil && res == nil
